@@ -81,7 +81,7 @@ def run(ctx: core.Ctx):
     # accessor: whits with s / sg / p and the three dimension orders
     from hdc.algo.ops import ws2dgu, ws2dpgu
     for k in range(ctx.budget(8, 60)):
-        nt, ny, nx = rng.choice([6, 12, 36]), 2, 3
+        nt, ny, nx = rng.choice([6, 12, 36]), rng.choice([2, 3]), 3
         nd = -3000
         cube = np.zeros((nt, ny, nx), dtype="int16")
         for i in range(ny):
@@ -100,7 +100,14 @@ def run(ctx: core.Ctx):
         else:
             sgv = np.array([[rng.choice([-np.inf, -1.0, 0.5, 2.0, 3.3]) for _ in range(nx)] for _ in range(ny)])
             lam_px = 10 ** sgv
-            kw = dict(sg=xr.DataArray(sgv, dims=("y", "x")))
+            sgd = xr.DataArray(sgv, dims=("y", "x"))
+            form = rng.choice(["yx", "xy", "float32"])
+            if form == "xy":
+                sgd = sgd.transpose("x", "y")          # named dims: must be matched by name, not by position
+            elif form == "float32":
+                sgd = sgd.astype("float32")
+                lam_px = 10 ** sgd.values.astype("float32")
+            kw = dict(sg=sgd)
         for order in (("time", "y", "x"), ("y", "x", "time"), ("y", "time", "x")):
             res = da.transpose(*order).hdc.whit.whits(nodata=nd, p=p, **kw)
             res = res.transpose("time", "y", "x")
